@@ -141,4 +141,14 @@ CHECKS = {
         ],
         assumptions=SIM_ASSUMPTIONS + ["the enumerated states are a superset of the reachable rollout states (children and ControllerRevisions are written exactly as the controller writes them: real newControllerRevision / SetLastApplied); the clauses are per-sync invariants that the statement makes for any state"],
     ),
+    "C09": dict(
+        level="fault_enumeration",
+        rule="for every fair rollout scenario (n=1..2 children, thorough 3; RollingInPlace/RollingRecreate; generateSelector on/off; optional second template change at sync k) and every sync of it: (a) every crash cut = each prefix of the non-child requests, then every subset of the child writes (sync unwound, controller rebuilt, caches refilled from the store); "
+             "(b) each of 409, 500, timeout (not applied), lost response (applied) on every single request; then the fair continuation. A deviation is non-trivial and distinct by construction (sync index x request identity x kind / cut)",
+        units=[
+            dict(pkg=COMPOSITE, test="TestVerifC09", shards=dict(quick=16, thorough=16), budget=dict(quick=600, thorough=3300)),
+        ],
+        assumptions=SIM_ASSUMPTIONS + ["requests to distinct objects commute in the sim, so 'prefix + any subset of child writes' covers every order the map iteration can produce; the order of the (at most three) ControllerRevision writes of one sync is the one the run produced",
+                                       "random pairs of faults are outside this technique family; pairs are not claimed"],
+    ),
 }
